@@ -269,6 +269,15 @@ def registries(gname, tier):
                 out.append(tuple(reversed(sub)))
             if tier == "thorough" and k == 3:
                 out.append((sub[1], sub[0], sub[2]))
+    if gname == "B":
+        # every single-axis metric at the centre plus one or two more variables: requests for all three
+        # axes must prefer the partition with the larger block even when that block has to be interpolated
+        base = (0, 3, 4)
+        rest = [i for i in range(npool) if i not in base]
+        for k in (1, 2):
+            for sub in itertools.combinations(rest, k):
+                out.append(base + tuple(sub))
+                out.append(tuple(sub) + base)
     return out
 
 
